@@ -54,6 +54,7 @@ enum NumStdDev {
 One = 1 , Two = 2 , Three = 3 , }
 
 
+
 #[derive(Debug)]
 struct Error { k: u8 }
 
@@ -72,6 +73,7 @@ fn upper_bound(num_samples: u64, theta: f64, num_std_dev: NumStdDev, no_data_see
 
 // ---------------- theta/hash_table.rs: specs copied from contracts/theta_table.rs ----------------
 const MAX_THETA : u64 = i64 :: MAX as u64 ;
+
 
 
 spec fn probe_at(p0: int, s: int, j: int, size: int) -> int { (p0 + j * s) % size }
@@ -205,6 +207,7 @@ lg_cur_size : u8 , lg_nom_size : u8 , lg_max_size : u8 , resize_factor : ResizeF
 
 
 
+
 impl ThetaHashTable {
     spec fn wf(&self) -> bool {
         &&& 5 <= self.lg_cur_size <= self.lg_max_size
@@ -280,10 +283,48 @@ impl ThetaHashTable {
     #[verifier::external_body]
     fn lg_nom_size(&self) -> (r: u8) ensures r == self.lg_nom_size { unimplemented!() }
 
+    // entries.iter().copied().filter(|&e| e != 0): iterator leaf; ASSUMED to yield the non-zero slots in slot order
+    #[verifier::external_body]
+    fn iter(&self) -> (r: impl Iterator<Item = u64> + '_) ensures iter_items(r) == nonzero_seq(self.entries@) { self.entries.iter().copied().filter(|e: &u64| *e != 0) }
+
     // compute_seed_hash(self.hash_seed): a hash leaf (C16)
     #[verifier::external_body]
     fn seed_hash(&self) -> (r: u16) ensures r == seed_hash_spec(self.hash_seed) { unimplemented!() }
 }
+
+// the sequence an iterator will yield (iterators are leaves here)
+pub uninterp spec fn iter_items<I>(it: I) -> Seq<u64>;
+// common/mod.rs canonical_double (float leaf: NaN -> 0x7ff8000000000000, -0.0 -> +0.0, else to_bits): opaque
+pub uninterp spec fn canon_spec(v: f64) -> u64;
+#[verifier::external_body]
+fn canonical_double(value: f64) -> (r: u64) ensures r == canon_spec(value) { unimplemented!() }
+// `value as f64` for an f32 (R15 float leaf)
+pub uninterp spec fn f32_to_f64(v: f32) -> f64;
+#[verifier::external_body]
+fn vx_f32_as_f64(value: f32) -> (r: f64) ensures r == f32_to_f64(value) { value as f64 }
+
+const DEFAULT_LG_K : u8 = 12 ;
+
+const DEFAULT_UPDATE_SEED : u64 = 9001 ;
+
+struct ThetaSketchBuilder {
+lg_k : u8 , resize_factor : ResizeFactor , sampling_probability : f32 , seed : u64 , }
+
+impl ThetaSketchBuilder {
+    // the documented defaults (closed: the ensures of a trait method must be visible to every caller)
+    pub closed spec fn is_default(&self) -> bool {
+        self.lg_k == 12 && self.resize_factor is X8 && self.sampling_probability == 1.0f32 && self.seed == 9001
+    }
+}
+impl Default for ThetaSketchBuilder {
+    fn default ( ) -> ( r : Self ) ensures
+/*@C04.builder_defaults*/ r . is_default ( ) {
+Self {
+lg_k : DEFAULT_LG_K , resize_factor : ResizeFactor :: X8 , sampling_probability : 1.0 , seed : DEFAULT_UPDATE_SEED , }
+}
+
+}
+
 
 // `self.iter().collect()`: ThetaSketch::iter = table.iter() = entries.iter().copied().filter(|&e| e != 0)   (iterator leaf)
 #[verifier::external_body]
@@ -320,8 +361,10 @@ struct ThetaSketch {
 table : ThetaHashTable , }
 
 
+
 struct CompactThetaSketch {
 entries : Vec < u64 > , theta : u64 , seed_hash : u16 , ordered : bool , empty : bool , }
+
 
 
 impl ThetaSketch {
@@ -371,7 +414,37 @@ let i = choose | i : int | 0 <= i < es0 . len ( ) && es0 [ i ] == c ;
 }
 
 
-    fn estimate ( & self ) -> ( r : f64 ) ensures /*@C04.estimate*/ r == self . est_spec ( ) ,
+
+    fn builder ( ) -> ( r : ThetaSketchBuilder ) ensures
+/*@C04.builder_defaults*/ r . is_default ( ) {
+ThetaSketchBuilder :: default ( ) }
+
+
+    // wrappers: update of the canonical bit pattern
+    fn update_f64 ( & mut self , value : f64 ) requires old ( self ) . wf ( ) ensures final ( self ) . wf ( ) , same_config ( final ( self ) . table , old ( self ) . table ) ,
+/*@C04.update.theta*/ final ( self ) . table . theta <= old ( self ) . table . theta ,
+/*@C04.update_f64.canonical*/ forall | offered : ISet < u64 > | kmv ( offered , old ( self ) . table . entries @ , old ( self ) . table . theta ) ==> # [ trigger ] kmv ( offered . insert ( hash_spec ( old ( self ) . table . hash_seed , canon_spec ( value ) ) >> 1 ) , final ( self ) . table . entries @ , final ( self ) . table . theta ) ,
+/*@C18.theta.load*/ final ( self ) . table . num_entries <= max_load ( final ( self ) . table . lg_nom_size ) , {
+let canonical = canonical_double ( value ) ;
+self . update ( canonical ) ;
+}
+
+
+    fn update_f32 ( & mut self , value : f32 ) requires old ( self ) . wf ( ) ensures final ( self ) . wf ( ) , same_config ( final ( self ) . table , old ( self ) . table ) ,
+/*@C04.update.theta*/ final ( self ) . table . theta <= old ( self ) . table . theta ,
+/*@C04.update_f32.widened*/ forall | offered : ISet < u64 > | kmv ( offered , old ( self ) . table . entries @ , old ( self ) . table . theta ) ==> # [ trigger ] kmv ( offered . insert ( hash_spec ( old ( self ) . table . hash_seed , canon_spec ( f32_to_f64 ( value ) ) ) >> 1 ) , final ( self ) . table . entries @ , final ( self ) . table . theta ) ,
+/*@C18.theta.load*/ final ( self ) . table . num_entries <= max_load ( final ( self ) . table . lg_nom_size ) , {
+self . update_f64 ( vx_f32_as_f64 ( value ) ) ;
+}
+
+
+    fn iter ( & self ) -> ( r : impl Iterator < Item = u64 > + '_ ) ensures
+/*@C04.iter*/ iter_items ( r ) == nonzero_seq ( self . table . entries @ ) {
+self . table . iter ( ) }
+
+
+    fn estimate ( & self ) -> ( r : f64 ) ensures
+/*@C04.estimate*/ r == self . est_spec ( ) ,
 /*@C01.theta.exact*/ self . table . theta == MAX_THETA ==> r == u64_to_f64 ( self . n64 ( ) ) , {
 proof {
 leaf_zero ( ) ;
@@ -386,6 +459,7 @@ let theta = vx_theta_frac ( self . table . theta ( ) ) ;
 vx_fdiv ( num_retained , theta ) }
 
 
+
     fn theta ( & self ) -> ( r : f64 ) ensures r == theta_frac ( self . table . theta ) ,
 /*@C01.theta.theta_ok*/ self . wf ( ) ==> theta_ok ( r ) , {
 proof {
@@ -396,8 +470,10 @@ leaf_theta_frac_ok ( self . table . theta ) ;
 vx_theta_frac ( self . table . theta ( ) ) }
 
 
+
     fn theta64 ( & self ) -> ( r : u64 ) ensures r == self . table . theta {
 self . table . theta ( ) }
+
 
 
     fn is_empty ( & self ) -> ( r : bool ) ensures r == ( self . table . num_entries == 0 ) ,
@@ -405,8 +481,10 @@ self . table . theta ( ) }
 self . table . is_empty ( ) }
 
 
+
     fn is_estimation_mode ( & self ) -> ( r : bool ) ensures r == ( self . table . theta < MAX_THETA ) {
 self . table . theta ( ) < MAX_THETA }
+
 
 
     fn num_retained ( & self ) -> ( r : usize ) ensures r == self . table . num_entries ,
@@ -414,8 +492,10 @@ self . table . theta ( ) < MAX_THETA }
 self . table . num_entries ( ) }
 
 
+
     fn lg_k ( & self ) -> ( r : u8 ) ensures r == self . table . lg_nom_size {
 self . table . lg_nom_size ( ) }
+
 
 
     fn trim ( & mut self ) requires old ( self ) . wf ( ) ensures final ( self ) . wf ( ) , same_config ( final ( self ) . table , old ( self ) . table ) ,
@@ -443,12 +523,14 @@ assert ( vals ( es1 ) . contains ( c ) <==> vals ( es0 ) . filter ( | c : u64 | 
 }
 
 
+
     fn reset ( & mut self ) requires old ( self ) . wf ( ) ensures final ( self ) . wf ( ) , same_config ( final ( self ) . table , old ( self ) . table ) ,
 /*@C04.reset.initial*/ final ( self ) . table . is_initial ( ) ,
 /*@C04.reset.empty*/ forall | c : u64 | ! vals ( final ( self ) . table . entries @ ) . contains ( c ) ,
 /*@C04.reset.kmv*/ kmv ( ISet :: empty ( ) , final ( self ) . table . entries @ , final ( self ) . table . theta ) , {
 self . table . reset ( ) ;
 }
+
 
 
     fn compact ( & self , ordered : bool ) -> ( r : CompactThetaSketch ) requires self . wf ( ) ensures r . wf ( ) ,
@@ -502,6 +584,7 @@ entries , theta , seed_hash : self . table . seed_hash ( ) , ordered , empty , }
 }
 
 
+
     fn lower_bound ( & self , num_std_dev : NumStdDev ) -> ( r : f64 ) requires self . wf ( ) ensures
 /*@C01.theta.bracket*/ fle ( r , self . est_spec ( ) ) ,
 /*@C01.theta.exact*/ self . table . theta == MAX_THETA ==> r == u64_to_f64 ( self . n64 ( ) ) , {
@@ -519,6 +602,7 @@ return vx_usize_as_f64 ( self . num_retained ( ) ) ;
 lower_bound ( self . num_retained ( ) as u64 , self . theta ( ) , num_std_dev ) . expect ( "" ) }
 
 
+
     fn upper_bound ( & self , num_std_dev : NumStdDev ) -> ( r : f64 ) requires self . wf ( ) ensures
 /*@C01.theta.bracket*/ fle ( self . est_spec ( ) , r ) ,
 /*@C01.theta.exact*/ self . table . theta == MAX_THETA ==> r == u64_to_f64 ( self . n64 ( ) ) , {
@@ -534,6 +618,7 @@ return vx_usize_as_f64 ( self . num_retained ( ) ) ;
 }
 upper_bound ( self . num_retained ( ) as u64 , self . theta ( ) , num_std_dev , self . is_empty ( ) , ) . expect ( "" ) }
 
+
 }
 
 impl CompactThetaSketch {
@@ -548,7 +633,8 @@ impl CompactThetaSketch {
         if self.empty { fzero() } else if self.theta == MAX_THETA { u64_to_f64(self.n64()) } else { fdiv(u64_to_f64(self.n64()), theta_frac(self.theta)) }
     }
 
-    fn estimate ( & self ) -> ( r : f64 ) ensures /*@C04.estimate*/ r == self . est_spec ( ) ,
+    fn estimate ( & self ) -> ( r : f64 ) ensures
+/*@C04.estimate*/ r == self . est_spec ( ) ,
 /*@C01.theta.exact*/ self . wf ( ) && self . theta == MAX_THETA ==> r == u64_to_f64 ( self . n64 ( ) ) , {
 proof {
 leaf_zero ( ) ;
@@ -564,6 +650,7 @@ let theta = vx_theta_frac ( self . theta ) ;
 vx_fdiv ( num_retained , theta ) }
 
 
+
     fn theta ( & self ) -> ( r : f64 ) ensures r == theta_frac ( self . theta ) ,
 /*@C01.theta.theta_ok*/ self . wf ( ) ==> theta_ok ( r ) , {
 proof {
@@ -574,20 +661,39 @@ leaf_theta_frac_ok ( self . theta ) ;
 vx_theta_frac ( self . theta ) }
 
 
+
     fn theta64 ( & self ) -> ( r : u64 ) ensures r == self . theta {
 self . theta }
+
 
 
     fn is_empty ( & self ) -> ( r : bool ) ensures r == self . empty {
 self . empty }
 
 
+
     fn is_estimation_mode ( & self ) -> ( r : bool ) ensures r == ( self . theta < MAX_THETA ) {
 self . theta < MAX_THETA }
 
 
+
+    fn is_ordered ( & self ) -> ( r : bool ) ensures
+/*@C04.compact.ordered_getter*/ r == self . ordered {
+self . ordered }
+
+
+    fn seed_hash ( & self ) -> ( r : u16 ) ensures
+/*@C04.compact.seed_hash_getter*/ r == self . seed_hash {
+self . seed_hash }
+
+
+    // self.entries.iter().copied(): iterator leaf; ASSUMED to yield the entries in order
+    #[verifier::external_body]
+    fn iter(&self) -> (r: impl Iterator<Item = u64> + '_) ensures iter_items(r) == self.entries@ { self.entries.iter().copied() }
+
     fn num_retained ( & self ) -> ( r : usize ) ensures r == self . entries @ . len ( ) {
 self . entries . len ( ) }
+
 
 
     fn lower_bound ( & self , num_std_dev : NumStdDev ) -> ( r : f64 ) requires self . wf ( ) ensures
@@ -605,6 +711,7 @@ return vx_usize_as_f64 ( self . num_retained ( ) ) ;
 lower_bound ( self . num_retained ( ) as u64 , self . theta ( ) , num_std_dev ) . expect ( "" ) }
 
 
+
     fn upper_bound ( & self , num_std_dev : NumStdDev ) -> ( r : f64 ) requires self . wf ( ) ensures
 /*@C01.theta.bracket*/ fle ( self . est_spec ( ) , r ) ,
 /*@C01.theta.exact*/ self . theta == MAX_THETA ==> r == u64_to_f64 ( self . n64 ( ) ) , {
@@ -617,6 +724,7 @@ if ! self . is_estimation_mode ( ) {
 return vx_usize_as_f64 ( self . num_retained ( ) ) ;
 }
 upper_bound ( self . num_retained ( ) as u64 , self . theta ( ) , num_std_dev , self . is_empty ( ) , ) . expect ( "" ) }
+
 
 }
 
